@@ -256,7 +256,39 @@ func guardSucc(ds *Describer, b *ssa.BasicBlock, guard GuardSpec, depth int) int
 		}
 	}
 	if !established {
-		return -1
+		// the other polarity: `a || b` is true when a or b is true: established if EVERY operand being true
+		// establishes the guard (dually: `a && b` false when every operand being false establishes it)
+		all := true
+		n := 0
+		for i, e := range phi.Edges {
+			pred := phi.Block().Preds[i]
+			if c, ok := e.(*ssa.Const); ok && c.Value != nil {
+				// short-circuit edge: pred's own If decided the value
+				s := guardSucc(ds, pred, guard, depth+1)
+				if s < 0 || pred.Succs[s] != phi.Block() {
+					all = false
+				}
+				n++
+				continue
+			}
+			s := guard(DecodeCondValue(ds, e))
+			if s < 0 || (s == 0) == wantTruth {
+				// must be established when e has the opposite truth value of wantTruth
+				all = false
+			}
+			n++
+		}
+		if !all || n == 0 {
+			return -1
+		}
+		truthSucc := 1
+		if !wantTruth {
+			truthSucc = 0
+		}
+		if neg {
+			truthSucc = 1 - truthSucc
+		}
+		return truthSucc
 	}
 	// successor of b on which the phi has the wanted truth value
 	truthSucc := 0
